@@ -159,7 +159,7 @@ def run(ctx):
                 'strings, empty parts anywhere, disjoint alphabets; 1..6 parts; logits with >= as many rows as characters. '
                 'non-trivial = >= 2 parts and at least one detected overlap > 0')
     ctx.assumptions += ['float comparison of quotients of small integers (cer) orders them like exact rationals (D2)']
-    n = 400 if ctx.quick() else 8000
+    n = 1000 if ctx.quick() else 12000
     reqs, impl, cases = [], [], []
     for _ in range(n):
         kind, parts, extra = gen_parts(rng, ctx.quick())
